@@ -122,7 +122,10 @@ def to_hashable(data: Any) -> Any:
         return tuple(map(to_hashable, data))
     elif isinstance(data, dict):
         sorted_keys = sorted(data)
-        return tuple(sorted_keys + [to_hashable(data[k]) for k in sorted_keys])
+        # tag dict in order to distinguish it from a list with the same elements
+        return (dict, *sorted_keys, *(to_hashable(data[k]) for k in sorted_keys))
+    elif isinstance(data, bool):
+        return (bool, data)  # True == 1 in Python, but not in JSON
     else:
         return data
 
